@@ -30,8 +30,8 @@ OPTS_T = OPTS_Q + [{'trivia': 'all'}, {'trivia': 'block+1'}, {'pep8space': 1}, {
                    {'docstr': 'strict'}, {'coerce': False}, {'pars_walrus': True}, {'set_norm': 'call'}, {'op_side': 'right'},
                    {'promote': False}, {'args_as': 'arg'}]
 ALPHA = {
-    'quick': [dict(nk=7, nks=3, opts=OPTS_Q), dict(nk=1, nks=1, forms=('src',), opts=({},))],
-    'thorough': [dict(nk=16, nks=7, opts=OPTS_T), dict(nk=3, nks=2, forms=('src', 'fst'), opts=({}, {'trivia': False})),
+    'quick': [dict(nk=7, nks=3, opts=OPTS_Q, extra=('par',)), dict(nk=1, nks=1, forms=('src',), opts=({},))],
+    'thorough': [dict(nk=16, nks=7, opts=OPTS_T, extra=('par',)), dict(nk=3, nks=2, forms=('src', 'fst'), opts=({}, {'trivia': False})),
                  dict(nk=1, nks=1, forms=('src',), opts=({},),
                       kinds=('replace', 'remove', 'put_slice', 'del_slice', 'insert'))],
 }
@@ -58,10 +58,12 @@ UNEVEN_TARGETS = [  # containers whose elements have an indentation of their own
     "class C:\n    def m(self):\n        x = [a, b]\n        y = [\n          a]\n        del (\n            p,\n            q)",
 ]
 UNEVEN = dict(nk=1, nks=10, seq_from=7, forms=('src', 'fst'), opts=({}, {'trivia': False}), kinds=('put_slice',))
+SEQEXTRA = dict(nk=1, nks=12, seq_from=7, forms=('src',), opts=({},), kinds=('put_slice',))  # the later slice codes at every list of every program
 
 
 def shards(tier):
     out = [{'uneven': i, 'prog': -1, 'part': [0, 1], 'depth': 1} for i in range(len(UNEVEN_TARGETS))]
+    out += [{'seqextra': 1, 'prog': i, 'part': [0, 1], 'depth': 1} for i in range(len(PROGRAMS))]
     # long histories: the closure of each program under the shrinking alphabet (delete anything, replace anything by the simplest
     # code of its category); every operation makes the program smaller or leaves it as it is, so the reachable state space is finite
     for i in (CLOSURE_QUICK if tier == 'quick' else range(len(PROGRAMS))):
@@ -122,6 +124,8 @@ def run_shard(desc, tier, res):
     import fst
     src0 = PROGRAMS[desc['prog']] if 'uneven' not in desc else UNEVEN_TARGETS[desc['uneven']]
     alphas = ALPHA[tier] if 'uneven' not in desc else [UNEVEN]
+    if desc.get('seqextra'):
+        alphas = [SEQEXTRA]
     if desc['depth'] == 3:
         alphas = [ALPHA['quick'][1], ALPHA['quick'][1], ALPHA['thorough'][2]]
     if desc.get('closure'):
